@@ -196,8 +196,8 @@ func c11(r *core.Run) {
 					accs = append(accs, access{in, c.Args[0], "iterator"})
 				case strings.HasSuffix(name, ").Get") && strings.Contains(name, pebblePath):
 					accs = append(accs, access{in, c.Args[0], "record fetch"})
-				case strings.Contains(name, "createSafeIterator"):
-					accs = append(accs, access{in, nil, "iterator on the live handle (createSafeIterator)"})
+				case isLiveIterHelper(p, c):
+					accs = append(accs, access{in, nil, "iterator on the live handle (" + core.StaticCallee(c).Name() + ")"})
 				}
 			})
 		}
@@ -341,7 +341,7 @@ func c11(r *core.Run) {
 						return
 					}
 					name := core.CalleeName(c)
-					if !((strings.HasSuffix(name, ").Get") || strings.HasSuffix(name, ".NewIter")) && strings.Contains(name, pebblePath+".DB)")) && !strings.Contains(name, "createSafeIterator") {
+					if !((strings.HasSuffix(name, ").Get") || strings.HasSuffix(name, ".NewIter")) && strings.Contains(name, pebblePath+".DB)")) && !isLiveIterHelper(p, c) {
 						return
 					}
 					r.Check(states[in] == lkW, "C11.LOCK", core.FuncName(fn)+"#rmw-read-under-write-lock", in.Pos(), "the lookup a mutation bases its index maintenance on happens with the write lock held", "a mutating method reads the database before taking the writer mutex: another writer can commit between this read and the commit, and the stale-entry cleanup is computed from a superseded record")
@@ -412,7 +412,7 @@ func c11(r *core.Run) {
 					r.Fail("C11.NOESCAPE", fnm+"#returns-internal-pointer", pos, "a pointer into the guarded signature slice / database is handed out: callers read it without the lock while writers reallocate")
 					continue
 				case *ssa.UnOp:
-					if _, isF := core.FieldLoad(x, "db"); isF {
+					if _, _, isF := fieldLoadBy(x, func(t types.Type) bool { return strings.HasSuffix(t.String(), "SignatureDatabase") }); isF {
 						r.Fail("C11.NOESCAPE", fnm+"#returns-internal-pointer", pos, "the guarded database pointer itself is returned")
 						continue
 					}
@@ -471,8 +471,8 @@ func liveAccess(p *core.Program, f *ssa.Function, seen map[*ssa.Function]bool) s
 			case (strings.HasSuffix(name, ").Get") || strings.HasSuffix(name, ".NewIter")) && strings.Contains(name, pebblePath+".DB)"):
 				out = "DB" + name[strings.LastIndex(name, ")"):] + " in " + f.Name()
 				return
-			case strings.Contains(name, "createSafeIterator"):
-				out = "createSafeIterator in " + f.Name()
+			case isLiveIterHelper(p, c):
+				out = core.StaticCallee(c).Name() + " in " + f.Name()
 				return
 			}
 			if callee := core.StaticCallee(c); callee != nil && p.IsProdFunc(callee) && callee.Pkg == f.Pkg && callee.Parent() == nil {
